@@ -1076,7 +1076,7 @@ Proof.
   intros st. unfold shutdown. destruct (s_halt (flush st)); [apply flush_rel|]. cbn. apply flush_rel.
 Qed.
 
-Lemma deletable_le : forall t st s w, deletable_at t st s = true -> In w (entries_at st s) -> w <= t.
+Lemma deletable_le : forall t st s w, deletable_at t st s = true -> In w (entries_at st s) -> stamp w <= t.
 Proof.
   intros t st s w D H. apply In_entries_at in H. destruct H as [f [H1 H2]].
   apply In_files_at in H1. unfold deletable_at in D.
@@ -1088,14 +1088,14 @@ Proof.
 Qed.
 
 Lemma truncate_files_rel : forall names st t cur w,
-  In w (s_released (truncate_files st t cur names)) -> In w (s_released st) \/ w <= t.
+  In w (s_released (truncate_files st t cur names)) -> In w (s_released st) \/ stamp w <= t.
 Proof.
   induction names as [|s names IH]; intros st t cur w H; cbn in H; [left; exact H|].
   destruct (match cur with Some c => c =? s | None => false end); [apply IH in H; exact H|].
   destruct (deletable_at t (s_store st) s) eqn:D; [|apply IH in H; exact H].
   destruct (do_io st (CDel s)) as [[o st1]|] eqn:E1; [|left; exact H].
   io_same E1.
-  assert (X : forall v, In v (s_released (delete_file st1 s)) -> In v (s_released st) \/ v <= t).
+  assert (X : forall v, In v (s_released (delete_file st1 s)) -> In v (s_released st) \/ stamp v <= t).
   { intros v Hv. cbn in Hv. apply in_app_or in Hv. destruct Hv as [Hv|Hv].
     - right. rewrite Est in Hv. apply (deletable_le t (s_store st) s); auto.
     - left. rewrite <- Erel. exact Hv. }
@@ -1107,7 +1107,7 @@ Proof.
 Qed.
 
 Lemma step_rel : forall cfg st ev w, In w (s_released (step cfg st ev)) ->
-  In w (s_released st) \/ exists t, ev = STruncate t /\ w <= t.
+  In w (s_released st) \/ exists t, ev = STruncate t /\ stamp w <= t.
 Proof.
   intros cfg st ev w H. unfold step in H. destruct (s_halt st); [left; exact H|].
   destruct ev as [x size| |t|].
@@ -1119,7 +1119,7 @@ Proof.
 Qed.
 
 Lemma fold_step_rel : forall cfg sched st w, In w (s_released (fold_left (step cfg) sched st)) ->
-  In w (s_released st) \/ exists t, In (STruncate t) sched /\ w <= t.
+  In w (s_released st) \/ exists t, In (STruncate t) sched /\ stamp w <= t.
 Proof.
   intros cfg sched; induction sched as [|ev sched IH]; intros st w H; cbn in H; [left; exact H|].
   apply IH in H. destruct H as [H|[t [H1 H2]]].
@@ -1130,7 +1130,7 @@ Qed.
 
 (* Only entries stamped at or below an applied watermark are ever released. *)
 Theorem released_below_watermark : forall cfg sched io w,
-  In w (s_released (run cfg sched io)) -> exists t, In (STruncate t) sched /\ w <= t.
+  In w (s_released (run cfg sched io)) -> exists t, In (STruncate t) sched /\ stamp w <= t.
 Proof.
   intros cfg sched io w H. apply fold_step_rel in H. destruct H as [[]|H]. exact H.
 Qed.
@@ -1138,7 +1138,7 @@ Qed.
 Theorem acked_survive_repaired : forall cfg sched io,
   c_variant cfg = Repaired ->
   forall w, In w (acked_ok (run cfg sched io)) ->
-  (forall t, In (STruncate t) sched -> t < w) ->
+  (forall t, In (STruncate t) sched -> t < stamp w) ->
   In w (recovered_after_crash (run cfg sched io)).
 Proof.
   intros cfg sched io V w H G. apply acked_survive_unless_released; auto.
@@ -1149,7 +1149,7 @@ Qed.
 Corollary acked_survive_prefix : forall cfg sched io n m,
   c_variant cfg = Repaired ->
   let a := run cfg (firstn n sched) (firstn m io) in
-  forall w, In w (acked_ok a) -> (forall t, In (STruncate t) (firstn n sched) -> t < w) ->
+  forall w, In w (acked_ok a) -> (forall t, In (STruncate t) (firstn n sched) -> t < stamp w) ->
   In w (recovered_after_crash a).
 Proof. intros cfg sched io n m V a. apply acked_survive_repaired; exact V. Qed.
 
@@ -1162,7 +1162,7 @@ Proof.
 Qed.
 
 Lemma run_hist_rel : forall cfg hist st w, In w (s_released (run_hist cfg st hist)) ->
-  In w (s_released st) \/ exists keep sched io t, In (keep, sched, io) hist /\ In (STruncate t) sched /\ w <= t.
+  In w (s_released st) \/ exists keep sched io t, In (keep, sched, io) hist /\ In (STruncate t) sched /\ stamp w <= t.
 Proof.
   intros cfg hist; induction hist as [|[[keep sched] io] hist IH]; intros st w H; cbn in H; [left; exact H|].
   apply IH in H. destruct H as [H|[k [sc [i [t [H1 [H2 H3]]]]]]].
@@ -1174,7 +1174,7 @@ Qed.
 Theorem acked_survive_restarts_watermark : forall cfg hist keep,
   c_variant cfg = Repaired ->
   forall w, In w (acked_ok (run_incarnations cfg hist)) ->
-  (forall k sched io t, In (k, sched, io) hist -> In (STruncate t) sched -> t < w) ->
+  (forall k sched io t, In (k, sched, io) hist -> In (STruncate t) sched -> t < stamp w) ->
   In w (recover_all (crash (s_store (run_incarnations cfg hist)))) /\
   In w (recover_all (crash_keep keep (s_store (run_incarnations cfg hist)))).
 Proof.
@@ -1183,15 +1183,25 @@ Proof.
   specialize (G k sc i t H1 H2). lia.
 Qed.
 
-(* Out-of-order stamps in a closed file: file 1 holds 5, 1, 3.  TruncateUpTo 3 must keep it
-   (its newest stamp is 5, not the last entry's 3); TruncateUpTo 5 deletes it. *)
+(* Out-of-order stamps in a closed file: file 1 holds the stamps 5, 1, 3.  TruncateUpTo 3
+   must keep it (its newest stamp is 5, not the last entry's 3); TruncateUpTo 5 deletes it. *)
 Definition tr_sched (t : N) : list sched_item :=
-  [SWrite 5 85; SWrite 1 85; SWrite 3 85; SFlush; SWrite 9 85; SFlush; STruncate t].
+  [SWrite (wid 5 1) 85; SWrite (wid 1 2) 85; SWrite (wid 3 3) 85; SFlush; SWrite (wid 9 4) 85; SFlush; STruncate t].
 Lemma example_truncation :
-  acked_ok (run repaired_cfg (tr_sched 3) (repeat OOk 20)) = [9; 3; 1; 5] /\
+  acked_ok (run repaired_cfg (tr_sched 3) (repeat OOk 20)) = [wid 9 4; wid 3 3; wid 1 2; wid 5 1] /\
   s_released (run repaired_cfg (tr_sched 3) (repeat OOk 20)) = [] /\
-  recovered_after_crash (run repaired_cfg (tr_sched 3) (repeat OOk 20)) = [5; 1; 3; 9] /\
-  s_released (run repaired_cfg (tr_sched 5) (repeat OOk 20)) = [5; 1; 3] /\
-  recovered_after_crash (run repaired_cfg (tr_sched 5) (repeat OOk 20)) = [9] /\
+  recovered_after_crash (run repaired_cfg (tr_sched 3) (repeat OOk 20)) = [wid 5 1; wid 1 2; wid 3 3; wid 9 4] /\
+  s_released (run repaired_cfg (tr_sched 5) (repeat OOk 20)) = [wid 5 1; wid 1 2; wid 3 3] /\
+  recovered_after_crash (run repaired_cfg (tr_sched 5) (repeat OOk 20)) = [wid 9 4] /\
   s_halt (run repaired_cfg (tr_sched 5) (repeat OOk 20)) = false.
+Proof. repeat split; vm_compute; reflexivity. Qed.
+
+(* Stamps that repeat: two different writes with stamp 7 on either side of a rotation, and
+   a run of equal stamps; recovery returns every one of them (the names differ). *)
+Definition eq_sched : list sched_item :=
+  [SWrite (wid 7 1) 85; SWrite (wid 7 2) 85; SWrite (wid 7 3) 85; SWrite (wid 7 4) 85; SWrite (wid 6 5) 85; SFlush].
+Lemma example_equal_stamps :
+  acked_ok (run (Config Repaired 101 8) eq_sched (repeat OOk 40)) = [wid 6 5; wid 7 4; wid 7 3; wid 7 2; wid 7 1] /\
+  recovered_after_crash (run (Config Repaired 101 8) eq_sched (repeat OOk 40)) = [wid 7 1; wid 7 2; wid 7 3; wid 7 4; wid 6 5] /\
+  map fst (s_store (run (Config Repaired 101 8) eq_sched (repeat OOk 40))) = [1; 2; 3; 4; 5].
 Proof. repeat split; vm_compute; reflexivity. Qed.
